@@ -32,10 +32,8 @@ theorem forward_correct (net : Net W) (hnet : WFNet net) (s : Nat) (hs : s < net
 true distance, and the sentinel exactly when `t` is unreachable. -/
 theorem shortest_distance_correct (net : Net W) (hnet : WFNet net) (s t : Nat) (hs : s < net.n) :
     (∀ y, shortestDistance net s t none = some y ↔ IsDist net s t y) ∧
-    (shortestDistance net s t none = none ↔ ¬ Reachable net s t) := by
-  unfold shortestDistance runForward
-  rw [forward_target]
-  exact ⟨run_isDist net hnet s hs t, run_none net hnet s hs t⟩
+    (shortestDistance net s t none = none ↔ ¬ Reachable net s t) :=
+  shortestDistance_spec net hnet s t hs
 
 /-- T4 with a cut-off: `shortest_distance(s, t, cut)` returns the true distance whenever that distance does not
 exceed the cut-off, and the sentinel whenever `t` is unreachable. (When the distance exceeds the cut-off the
